@@ -11,7 +11,7 @@ from . import gen_socket as G
 INVS = ["ContractHolds", "AtMostOne", "AbandonedClosed", "NoWedge", "NoGiveUp", "ClosedIsFinal", "QueueBound"]
 
 BASE = dict(MaxConn=3, MaxTask=10, MaxMsg=2, MaxEnv=5, H=2, ConnSubs="FALSE", MsgSubs="FALSE", SubSends="FALSE", QCap=10,
-            F_ENQ="TRUE", F_DRAIN="TRUE", F_ONE="TRUE", F_CLOSE="TRUE", F_CAP="TRUE", F_CLOCK="TRUE", Stalls="FALSE", Record="FALSE")
+            F_ENQ="TRUE", F_DRAIN="TRUE", F_ONE="TRUE", F_CLOSE="TRUE", F_CAP="TRUE", F_CLOCK="TRUE", F_WAITCLOSE="TRUE", Stalls="FALSE", Record="FALSE")
 
 
 def cfg(over=None, kinds="KindsBad", pols="PolMixed", invs=INVS, emit=False):
